@@ -113,6 +113,11 @@ func (f *form) trigger() string {
 	}
 	tc := ""
 	switch {
+	case f.K == "nest" || f.K == "mvpair" || f.K == "mvcall":
+		tc = fmt.Sprintf(" second=%s", f.T)
+		if f.J > 1 {
+			tc += "-of-embedded-type"
+		}
 	case f.T == "":
 	case f.K == "switch":
 		tc = " clauses=" + f.T
@@ -617,7 +622,7 @@ func cfg(spec string, maxN int, shape string, percent int, seed int64, lo, hi in
 		spec, maxN, shape, percent, seed, lo, hi, exclude, invs))
 }
 
-const allInvs = "InvSubset InvLookupFunction InvMethodSetRule InvAssertIffImpl InvIfaceCopy InvSwitchFirst InvSiteHistoryFree Emit"
+const allInvs = "InvSubset InvLookupFunction InvMethodSetRule InvAssertIffImpl InvIfaceCopy InvSwitchFirst InvSiteHistoryFree InvOwnReceiver Emit"
 
 type tlcJob struct {
 	name     string
@@ -673,7 +678,7 @@ func run(c *fw.Ctx) error {
 		slices := 4
 		for s := 0; s < slices; s++ {
 			lo, hi := s*(hi3+1)/slices, (s+1)*(hi3+1)/slices-1
-			jobs = append(jobs, tlcJob{name: fmt.Sprintf("chain.%d", s), cfg: cfg("Spec", 3, "chain", 15, c.Seed, lo, hi, allInvs), workers: 4, native: 40})
+			jobs = append(jobs, tlcJob{name: fmt.Sprintf("chain.%d", s), cfg: cfg("Spec", 3, "chain", 10, c.Seed, lo, hi, allInvs), workers: 4, native: 30})
 		}
 		jobs = append(jobs, tlcJob{name: "fork", cfg: cfg("Spec", 3, "fork", 1, c.Seed, 0, hi3, allInvs), workers: 4, native: 30})
 		jobs = append(jobs, tlcJob{name: "sim4", cfg: cfg("SpecSim", 4, "any", 100, c.Seed, 0, 0, allInvs), sim: true, num: 1, seed: c.Seed*100 + 1, native: 12})
@@ -685,7 +690,7 @@ func run(c *fw.Ctx) error {
 		}
 		for s := 0; s < slices; s++ {
 			lo, hi := s*(hi3+1)/slices, (s+1)*(hi3+1)/slices-1
-			jobs = append(jobs, tlcJob{name: fmt.Sprintf("fork.%d", s), cfg: cfg("Spec", 3, "fork", 20, c.Seed, lo, hi, allInvs), workers: 4, native: 40})
+			jobs = append(jobs, tlcJob{name: fmt.Sprintf("fork.%d", s), cfg: cfg("Spec", 3, "fork", 12, c.Seed, lo, hi, allInvs), workers: 4, native: 40})
 		}
 		for s := 0; s < 8; s++ {
 			jobs = append(jobs, tlcJob{name: fmt.Sprintf("sim4.%d", s), cfg: cfg("SpecSim", 4, "any", 100, c.Seed, 0, 0, allInvs), sim: true, num: 1, seed: c.Seed*100 + int64(s), native: 8})
@@ -806,7 +811,7 @@ func run(c *fw.Ctx) error {
 		return err
 	}
 	c.Exhaustive = false
-	c.Extra["exhaustive_parts"] = "thorough: every single-embedding hierarchy (chain) with n <= 3 x every form (3087 hierarchies), plus a seeded 20% of the two-embedding shapes with n = 3 and 400 simulated n = 4 hierarchies; quick: seeded 15% of the chains, 1% of the two-embedding shapes, 24 n = 4 hierarchies"
+	c.Extra["exhaustive_parts"] = "thorough: every single-embedding hierarchy (chain) with n <= 3 x every form (3087 hierarchies), plus a seeded 20% of the two-embedding shapes with n = 3 and 400 simulated n = 4 hierarchies; quick: seeded 10% of the chains, 1% of the two-embedding shapes, 24 n = 4 hierarchies"
 	c.Extra["hierarchies_run"] = ck.hierarchies
 	c.Extra["forms_evaluated"] = ck.formsTotal
 	c.Extra["forms_deviating"] = ck.formsFailed
